@@ -7,7 +7,7 @@
 using namespace v;
 template <typename T> static rc::Gen<T> UNI(T lo, T hi) { return rc::gen::resize(100, rc::gen::inRange<T>(lo, hi)); }
 
-enum { T_SET, T_GET, T_DEL };
+enum { T_SET, T_GET, T_DEL, T_GEN };   // T_GEN: (builder targets) a token is generated in between - the maps are what they were
 struct Op { int t, vt, name, val, rep; };  // vt: 1 INT 2 STR 3 BOOL 4 JSON (jwt_value_type_t)
 
 static const std::string LONGNAME = "a" + std::string(256, 'x');   // differs from "a" only beyond 256 characters
@@ -27,6 +27,7 @@ static std::string op_str(const Op &o) {
   const char *n = NAMES[o.name % NNAMES];
   std::string nm = n ? (std::string("\"") + n + "\"") : "NULL";
   const char *tn[] = {"?", "INT", "STR", "BOOL", "JSON"};
+  if (o.t == T_GEN) return "generate()";
   if (o.t == T_DEL) return "del(" + nm + ")";
   if (o.t == T_GET) return std::string("get") + tn[o.vt] + "(" + nm + ")";
   std::string v;
@@ -42,6 +43,7 @@ static J snapshot(const Map &m) { json_t *o = json_object(); for (auto &kv : m) 
 
 static Res model_apply(Map &m, const Op &o) {
   Res r; const char *n = NAMES[o.name % NNAMES]; bool noname = !n || !*n;
+  if (o.t == T_GEN) { r.code = JWT_VALUE_ERR_NONE; return r; }
   if (o.t == T_DEL) { if (noname) m.clear(); else m.erase(n); r.code = JWT_VALUE_ERR_NONE; return r; }
   if (o.t == T_GET) {
     if (o.vt == JWT_VALUE_JSON) {
@@ -98,7 +100,8 @@ static std::string exec_ops(Target &t, Map &m, const std::vector<Op> &ops) {
     const char *n = NAMES[o.name % NNAMES];
     int code = -1; std::string detail;
     TRACE += op_str(o);
-    if (o.t == T_DEL) { code = t.del(n); }
+    if (o.t == T_GEN) { code = JWT_VALUE_ERR_NONE; if (t.b) { char *tok = jwt_builder_generate(t.b); free(tok); } }
+    else if (o.t == T_DEL) { code = t.del(n); }
     else if (o.t == T_GET) {
       jwt_value_t v = val_get((jwt_value_type_t)o.vt, n);
       v.error = (jwt_value_error_t)stale;   // a caller that fills the struct by hand and re-uses it: the error field still holds the previous request's code
@@ -128,12 +131,12 @@ static std::string exec_ops(Target &t, Map &m, const std::vector<Op> &ops) {
     stale = code;
     TRACE += "=" + std::to_string(code) + "; ";
     bool code_ok = code == want.code || (want.code_alt_invalid && code == JWT_VALUE_ERR_INVALID);
-    if (!code_ok) return std::string(o.t == T_SET ? "set" : o.t == T_GET ? "get" : "del") + "-code:want" + std::to_string(want.code) + "-got" + std::to_string(code);
+    if (!code_ok) return std::string(o.t == T_SET ? "set" : o.t == T_GET ? "get" : o.t == T_GEN ? "generate" : "del") + "-code:want" + std::to_string(want.code) + "-got" + std::to_string(code);
     // state snapshot must equal the model (so "refused and no change" is checked on state)
     jwt_value_t sv = val_get(JWT_VALUE_JSON, nullptr);
     if (t.get(&sv) != JWT_VALUE_ERR_NONE || !sv.json_val) return "snapshot-failed";
     J got = J::parse(sv.json_val); free(sv.json_val);
-    if (!jeq(got, snapshot(m))) { TRACE += " state=" + got.dump() + " model=" + snapshot(m).dump(); return std::string("state-differs-after-") + (o.t == T_SET ? (want.code ? "refused-set" : "set") : o.t == T_GET ? "get" : "del"); }
+    if (!jeq(got, snapshot(m))) { TRACE += " state=" + got.dump() + " model=" + snapshot(m).dump(); return std::string("state-differs-after-") + (o.t == T_SET ? (want.code ? "refused-set" : "set") : o.t == T_GET ? "get" : o.t == T_GEN ? "generate" : "del"); }
   }
   return "";
 }
@@ -222,7 +225,7 @@ int main(int argc, char **argv) {
     {T_SET, 1, 1, 4, 0}, {T_SET, 2, 5, 0, 0}, {T_SET, 1, 6, 1, 1}, {T_SET, 4, 0, 9, 1}, {T_SET, 4, 0, 6, 1}, {T_SET, 2, 0, 5, 1},
     {T_SET, 4, 6, 4, 0}, {T_SET, 4, 6, 4, 1}, {T_SET, 4, 5, 1, 1}, {T_SET, 4, 6, 9, 1}, {T_SET, 4, 6, 11, 1}, {T_SET, 4, 6, 5, 0},
     {T_GET, 1, 0, 0, 0}, {T_GET, 2, 0, 0, 0}, {T_GET, 3, 0, 0, 0}, {T_GET, 4, 0, 0, 0}, {T_GET, 1, 1, 0, 0}, {T_GET, 2, 5, 0, 0}, {T_GET, 4, 6, 0, 0}, {T_GET, 3, 1, 0, 0},
-    {T_DEL, 0, 0, 0, 0}, {T_DEL, 0, 1, 0, 0}, {T_DEL, 0, 6, 0, 0}, {T_DEL, 0, 5, 0, 0}, {T_SET, 4, 1, 13, 1}, {T_SET, 3, 0, 2, 1}};
+    {T_DEL, 0, 0, 0, 0}, {T_DEL, 0, 1, 0, 0}, {T_DEL, 0, 6, 0, 0}, {T_DEL, 0, 5, 0, 0}, {T_SET, 4, 1, 13, 1}, {T_SET, 3, 0, 2, 1}, {T_GEN, 0, 0, 0, 0}};
   int L = a.thorough() ? 4 : 3;
   {
     std::vector<Op> seq; uint64_t idx = 0;
@@ -248,7 +251,7 @@ int main(int argc, char **argv) {
   std::string params = "seed=" + std::to_string(a.seed * 1000 + a.worker) + " max_success=" + std::to_string(n) + " max_size=100";
   setenv("RC_PARAMS", params.c_str(), 1);
   std::vector<Op> lastfail; int lasttk = 0; std::string lastwhy, lasttrace;
-  auto genOp = rc::gen::exec([]() { Op o; o.t = *rc::gen::weightedElement<int>({{5, T_SET}, {3, T_GET}, {1, T_DEL}}); o.vt = *UNI(1, 5); o.name = *rc::gen::weightedElement<int>({{4, 0}, {3, 1}, {2, 2}, {1, 3}, {1, 4}, {1, 5}, {1, 6}}); o.val = *UNI(0, 64); o.rep = *UNI(0, 2); return o; });
+  auto genOp = rc::gen::exec([]() { Op o; o.t = *rc::gen::weightedElement<int>({{10, T_SET}, {6, T_GET}, {2, T_DEL}, {1, T_GEN}}); o.vt = *UNI(1, 5); o.name = *rc::gen::weightedElement<int>({{4, 0}, {3, 1}, {2, 2}, {1, 3}, {1, 4}, {1, 5}, {1, 6}}); o.val = *UNI(0, 64); o.rep = *UNI(0, 2); return o; });
   bool ok = rc::check("C15: typed map", [&]() {
     if (v::shrink_exhausted()) return;
     int tk = *UNI(0, 6); int len = *UNI(1, 41);
